@@ -4,5 +4,6 @@ package scen
 
 import "github.com/boz/kcache"
 
-// In the instrumented tree EventBufsiz is a variable (kcinstr -constvar).
-func setEventBufsiz(n int) { kcache.EventBufsiz = n }
+// In the instrumented tree EventBufsiz is a variable whenever kcinstr could
+// make it one (kcinstr -constvar); the generated setter says whether it did.
+func setEventBufsiz(n int) { kcache.DetsimSetEventBufsiz(n) }
